@@ -272,10 +272,16 @@ def scan_class_functions(mod: Module, clsname: str) -> T.List[T.Tuple[str, FuncL
                 continue
             out.append((f'{clsname}.{st.name}', st, tainted))
         elif isinstance(st, (ast.Assign, ast.AnnAssign)) and st.value is not None:
+            from .c01_ops import resolve_impl
             for n in ast.walk(st.value):
                 if isinstance(n, ast.Lambda):
                     ps = [a.arg for a in n.args.args]
                     out.append((f'{clsname}.<table lambda>', n, ps[1:]))
+                elif isinstance(n, ast.Call) and isinstance(n.func, ast.Name) and mod.has_func(n.func.id):
+                    g = resolve_impl(mod, n)
+                    if g is not None:
+                        ps = [a.arg for a in g.args.args]
+                        out.append((f'{clsname}.<table entry {n.func.id}>', g, ps[1:]))
     return out
 
 
